@@ -45,7 +45,7 @@ class Opt:
 
 
 def run_admin(cmd, kind, opt, stdin_lines, typed, seed, device=None, script=None, connects=None,
-              unlock_args=None, tmpdir=None):
+              unlock_args=None, tmpdir=None, through_unlock=False):
     """cmd in unlock/onboard/changepin/pubkeys.  Returns observation dict."""
     import admin.misc as misc
     import admin.onboard as onboard
@@ -77,11 +77,19 @@ def run_admin(cmd, kind, opt, stdin_lines, typed, seed, device=None, script=None
     if cmd == "onboard" and kind == "ledger":
         # count the confirmation reads: the read after "Onboarding done" must stop the run
         orig_dispose = onboard.dispose_hsm
+        disposals = {"n": 0}
+        orig_unlock_dispose = unlock.dispose_hsm
 
         def dispose_then_stop(h):
             orig_dispose(h)
-            raise StopHere()
+            disposals["n"] += 1
+            # through_unlock: go on through "disconnect and re-connect" and the unlock step that follows the
+            # device-side onboarding, and stop before the attestation setup (C15's subject)
+            if not through_unlock or disposals["n"] >= 2:
+                raise StopHere()
         onboard.dispose_hsm = dispose_then_stop
+        if through_unlock:
+            unlock.dispose_hsm = dispose_then_stop
     try:
         with contextlib.redirect_stdout(buf):
             try:
@@ -103,6 +111,7 @@ def run_admin(cmd, kind, opt, stdin_lines, typed, seed, device=None, script=None
         sys.stdin = real_stdin
         if cmd == "onboard" and kind == "ledger":
             onboard.dispose_hsm = orig_dispose
+            unlock.dispose_hsm = orig_unlock_dispose
     return {"outcome": outcome, "error": err, "trace": list(world.trace), "answers": list(world.answers),
             "stdout": buf.getvalue()}
 
